@@ -26,7 +26,13 @@ pub struct LuaParser<'a> {
     ternary_depth: usize,
     paren_depth: usize,
     ternary_paren_depth: usize,
+    nesting_level: usize,
 }
+
+/// Maximum depth of nested expressions / blocks / doc types. Like the reference
+/// implementation ("chunk has too many syntax levels"), deeper input is a syntax
+/// error instead of unbounded recursion (and a stack overflow).
+const MAX_NESTING_LEVEL: usize = 256;
 
 impl MarkerEventContainer for LuaParser<'_> {
     fn get_mark_level(&self) -> usize {
@@ -67,6 +73,7 @@ impl<'a> LuaParser<'a> {
             ternary_depth: 0,
             paren_depth: 0,
             ternary_paren_depth: 0,
+            nesting_level: 0,
         };
 
         parse_chunk(&mut parser);
@@ -210,6 +217,29 @@ impl<'a> LuaParser<'a> {
 
     pub fn inside_ternary_branch(&self) -> bool {
         self.ternary_depth > 0
+    }
+
+    /// Enter one level of syntactic nesting; returns false once the limit is exceeded.
+    /// Always paired with `leave_nesting`.
+    pub fn enter_nesting(&mut self) -> bool {
+        self.nesting_level += 1;
+        self.nesting_level <= MAX_NESTING_LEVEL
+    }
+
+    pub fn leave_nesting(&mut self) {
+        self.nesting_level = self.nesting_level.saturating_sub(1);
+    }
+
+    /// Report the nesting overflow and consume the rest of the input, so that no
+    /// caller recurses again; the tokens stay in the tree.
+    pub(crate) fn fail_nesting_too_deep(&mut self) {
+        self.push_error(LuaParseError::syntax_error_from(
+            &t!("too many nesting levels"),
+            self.current_token_range(),
+        ));
+        while self.current_token() != LuaTokenKind::TkEof {
+            self.bump();
+        }
     }
 
     pub fn enter_paren(&mut self) {
@@ -437,6 +467,7 @@ mod tests {
             ternary_depth: 0,
             paren_depth: 0,
             ternary_paren_depth: 0,
+            nesting_level: 0,
         };
         parser.init();
 
